@@ -232,6 +232,7 @@ func checkC07(w *World, r *Report) {
 	checkApplyWritesFilterResult(w, r)
 	checkStringifyIdentityOnStrings(w, r)
 	checkInterpolatorSeesOnlySource(w, r)
+	checkPolicyQuestionsAgree(w, r, "R07.11")
 }
 
 func objName(o types.Object) string {
